@@ -3,4 +3,4 @@ From MV Require Import Geo.Wind2Defs Geo.Hull2Defs Geo.Simplify2Defs Geo.Decomp2
 Extraction Language OCaml.
 Extraction "../build/ml/c12_model.ml" simplify_ring subseq_b ring_dev_ok hull2 hull2_check
   decompose_rings decomp_check offset_check sample_verdict params_ok all_edges mono_check regular_out_check
-  area2 wind2 decompose ring_inside area2_contour wind_fast.
+  area2 wind2 decompose ring_inside area2_contour wind_fast must_in must_out.
